@@ -264,7 +264,7 @@ theorem whole_run_tests (follow : Follow) (toks : List (Tok Prim)) (mt : M Prim)
   · have hmap : (toks.map Arg.tok).map Arg.tok' = toks := by
       rw [List.map_map]; conv => rhs; rw [← List.map_id toks]
       rfl
-    simp only [run, foldl_tok, hmap, hbt]
+    simp only [run, foldl_tok, hmap, hbt, Bool.false_eq_true, if_false]
   · have h := doFind_outM { follow := follow } mt ht (.pathOut [] [10]) rfl roots
       (fun _ _ _ _ hd => by simp [refCfg] at hd) g0 0 0
     exact ⟨h.1, fun hx => h.2 (Or.inr hx)⟩
